@@ -14,7 +14,7 @@ from concurrent.futures import ThreadPoolExecutor
 import core
 from stages.common import *
 
-MON_C11 = {"NoRepeat", "InOrder", "NoGap", "FromStart", "DigestOk", "LiveComplete", "Refusal", "StoredButNeverDispatched"}
+MON_C11 = {"NoRepeat", "InOrder", "NoGap", "FromStart", "DigestOk", "LiveComplete", "Refusal", "StoredButNeverDispatched", "BeforeStart"}
 MON_C12_CALLBACKS = {"PutNeverWaitsOnConsumer", "OthersServed"}
 PKG = "./internal/chain/beacon"
 SHARDS = 4
@@ -189,8 +189,17 @@ def run(ctx, monitors):
     return _judge(ctx, monitors, scripts, jobs)
 
 
+def _public(ctx):
+    """the real BeaconProcess.PublicRandStream wrapper (internal/core) for every start round of the domain"""
+    return run_harness(ctx, "./internal/core", "TestVerifServePublic", "serve-public.ndjson", env={}, timeout=600,
+                       tags="verif,conn_insecure")
+
+
 def _judge(ctx, monitors, scripts, jobs):
     bin_for(ctx, PKG)            # build once, before the shards start
+    public = bool(monitors & MON_C11) and not getattr(ctx, "replay", None)
+    if public:
+        bin_for(ctx, "./internal/core", "verif,conn_insecure")
     # database files of the scenarios live on tmpfs when there is one (an fsync on the work disk costs
     # ~0.1 s, a scenario does several); the directory is created and removed by this run
     ctx._vsv_dbdir = None
@@ -198,8 +207,11 @@ def _judge(ctx, monitors, scripts, jobs):
         ctx._vsv_dbdir = "/dev/shm/verif-vsv-%d" % os.getpid()
         os.makedirs(ctx._vsv_dbdir, exist_ok=True)
     try:
-        with ThreadPoolExecutor(max_workers=len(jobs)) as ex:
+        with ThreadPoolExecutor(max_workers=len(jobs) + 1) as ex:
+            pub = ex.submit(_public, ctx) if public else None
             traces = list(ex.map(lambda j: _harness(ctx, *j), jobs))
+            if pub:
+                traces.append(pub.result())
     finally:
         if ctx._vsv_dbdir:
             shutil.rmtree(ctx._vsv_dbdir, ignore_errors=True)
@@ -251,7 +263,7 @@ def _judge(ctx, monitors, scripts, jobs):
                                 "(model drift or an un-executable step), first: %s" % (len(drift), drift[0]))
     ctx.assumptions += [
         "gRPC is replaced by an in-process SyncStream whose Send is gated/blocked/fails; flow control of a real connection is represented by a Send that does not return",
-        "PublicRandStream (internal/core) is not driven: it calls the same beacon.SyncChain through a proxy stream that only converts the packet type",
+        "PublicRandStream (internal/core) is driven through its real wrapper for every start round of the domain (free-running, memdb); the gated interleavings are driven on beacon.SyncChain, which the wrapper calls",
         "bolt files of the gated scenarios are pre-sized so that no Put has to re-map the file while a scan is open (the re-map hole is exhibited separately)",
     ]
     return allok
